@@ -848,9 +848,45 @@ fn mutate_json(j: &mut serde_json::Value, t: &mut Tape, budget: &mut u32) {
     }
 }
 
+/// characters that text decoders with table lookups, byte offsets or case mapping get wrong: the first code points
+/// of every UTF-8 length, the last ones, NUL / DEL, characters whose case mapping changes their length
+const ODD_CHARS: [&str; 16] = ["\u{80}", "\u{e9}", "\u{df}", "\u{7ff}", "\u{800}", "\u{20ac}", "\u{ffff}", "\u{1f600}", "\u{10ffff}", "\0", "\u{7f}", "\u{130}", "\u{1c5}", "\t", "\n", "\u{feff}"];
+
 fn random_text(t: &mut Tape) -> String {
     let n = t.choose(80);
-    (0..n).map(|_| TEXT_ALPHABET[t.choose(40)] as char).collect()
+    (0..n)
+        .map(|_| {
+            let k = t.choose(44);
+            if k < 40 {
+                (TEXT_ALPHABET[k] as char).to_string()
+            } else {
+                ODD_CHARS[t.choose(ODD_CHARS.len())].to_string()
+            }
+        })
+        .collect()
+}
+
+/// generic damage of an otherwise well-formed text: an odd character inserted, put in place of a character, or
+/// appended (character positions, so the text stays valid UTF-8 as every Rust / JS caller's text is)
+fn text_damage(s: &mut String, t: &mut Tape) -> &'static str {
+    let odd = ODD_CHARS[t.choose(ODD_CHARS.len())];
+    let positions: Vec<(usize, usize)> = s.char_indices().map(|(i, c)| (i, c.len_utf8())).collect();
+    match t.choose(3) {
+        0 if !positions.is_empty() => {
+            let (i, l) = positions[t.choose(positions.len())];
+            s.replace_range(i..i + l, odd);
+            "odd-char-replaces"
+        }
+        1 if !positions.is_empty() => {
+            let (i, _) = positions[t.choose(positions.len())];
+            s.insert_str(i, odd);
+            "odd-char-inserted"
+        }
+        _ => {
+            s.push_str(odd);
+            "odd-char-appended"
+        }
+    }
 }
 
 fn text(ctx: &mut Ctx, tape: &[u8]) -> CaseResult {
@@ -893,6 +929,9 @@ fn text(ctx: &mut Ctx, tape: &[u8]) -> CaseResult {
                 mutate::edit_bytes(&mut b, &mut t);
                 s = String::from_utf8_lossy(&b).into_owned();
             }
+            if t.chance(50) {
+                ctx.label(text_damage(&mut s, &mut t));
+            }
             let name = format!("{}::from_json", e.name);
             TEXT_PARSERS.with(|ps| {
                 let p = ps.iter().find(|p| p.name == name).expect("json parser");
@@ -931,6 +970,9 @@ fn text(ctx: &mut Ctx, tape: &[u8]) -> CaseResult {
                         hx.replace_range(p..p + 1, "z");
                     }
                 }
+            }
+            if t.chance(60) {
+                ctx.label(text_damage(&mut hx, &mut t));
             }
             let name = format!("{}::from_hex", e.name);
             TEXT_PARSERS.with(|ps| {
@@ -980,6 +1022,9 @@ fn text(ctx: &mut Ctx, tape: &[u8]) -> CaseResult {
                 }
                 5 => s.push_str("qqqqqq"),
                 _ => {}
+            }
+            if t.chance(110) {
+                ctx.label(text_damage(&mut s, &mut t));
             }
             TEXT_PARSERS.with(|ps| {
                 for _ in 0..2 {
